@@ -19,7 +19,8 @@ RULE = ('exhaustive small scope: every non-decreasing spike train up to the tier
         'cluster-id orders (one containing ids without spikes, and the cluster_ids=None default), window sizes that '
         'are and are not a multiple of 2*bin; firing_rate over all labellings x id orders x dyadic '
         'bin/duration; then a seeded random stream of long trains (many equal times, up to 300 (quick) / 2000 '
-        '(thorough) spikes, dyadic and non-dyadic sample rates with exact time*rate). Non-trivial = at least '
+        '(thorough) spikes, dyadic and non-dyadic sample rates with exact time*rate, spike times handed over as float64 / '
+        'float32 arrays or Python lists, symmetrize given or left to its default). Non-trivial = at least '
         'one pair of spikes falls inside the window (some count is non-zero) / at least two spikes for '
         'firing_rate; distinct = distinct abstract input.')
 EXHAUSTIVE = {'quick': True, 'thorough': True}
@@ -34,12 +35,15 @@ CLAUSES = {
 }
 TRUSTED = ['NumPy: astype(int64) of exact products, //, boolean-mask indexing, ravel_multi_index, bincount, '
            'in-place += through the ravel() view, maximum/transpose/dstack, int64*float64 (modelled, not verified)',
-           'float arithmetic only inside the exact regime (dyadic rate/bin/window/duration re-checked by Corr.v code 3; '
-           'times = samples/rate checked exact by the harness)']
+           'float arithmetic only inside the exact regime (Spec.params_regime = hypothesis of C15_params: dyadic '
+           'rate/bin/window and every time s/rate a float64, re-checked by Corr.v on the abstract input, code 3; the '
+           'float32-ness of float32 spike times is checked by the runner), where IEEE-754 operations are assumed to return a '
+           'nearest float64 (the hypothesis `Nearest` of C15_params / C15_rate_params)']
 ASSUMES = ['spike times non-decreasing and on the sample grid (time*rate exact), one label per spike',
            'cluster_ids (when given) distinct, non-negative and containing every label; labels non-negative',
            'binsize = floor(rate*bin) >= 1; 2^-12 <= bin_size, window_size <= 2^12 (np.clip is the identity)',
-           'counts below 2^31 (int32 array); firing_rate: bin > 0, duration >= 0 (0/None mean 1), exact float products']
+           'at most 65536 spikes (C15_count_bound: no count of the int32 array can wrap); firing_rate: bin > 0, '
+           'duration >= 0 (0/None mean 1), exact float products']
 TIMEOUT = {'quick': 20, 'thorough': 60}
 # the float constants of np.clip(x, 1e-5, 1e5) modelled in PV.C15.ParamsModel (clip_lo_f, clip_hi); C15_clip_constant
 # proves that the first is a float nearest to 10^-5
@@ -309,7 +313,7 @@ def _ftok(x):
 
 # Circuit breaker for edits that make the shift loop spin forever: the pool turns each such case into a
 # 'Timeout' observation after TIMEOUT seconds, but thousands of them would keep the tier running for hours.
-# After two time-outs in a worker process, the remaining cases of that worker get a short limit (re-arming the
+# After two time-outs in a worker process, the remaining cases of that worker get a short, then shorter limit (re-arming the
 # pool's SIGALRM timer, same handler, same 'Timeout' observation).  Never engages on a tree without time-outs.
 _TIMEOUTS = 0
 
@@ -318,7 +322,9 @@ def run_case(case):
     global _TIMEOUTS
     if _TIMEOUTS >= 2:
         import signal
-        signal.setitimer(signal.ITIMER_REAL, 0.5 if len(case['inp']['lab']) <= 64 else 5.0)
+        # 2..9 time-outs in this worker: 0.5 s per case; 10..39: 0.1 s; 40 and more: 0.03 s (x10 for trains > 64 spikes)
+        lim = 0.5 if _TIMEOUTS < 10 else 0.1 if _TIMEOUTS < 40 else 0.03
+        signal.setitimer(signal.ITIMER_REAL, lim if len(case['inp']['lab']) <= 64 else 10 * lim)
     try:
         return _run_case(case)
     except BaseException as e:
